@@ -751,6 +751,35 @@ func (s *sess) do(op string) string {
 			return s.sync()
 		}
 		return r
+	case "writerot":
+		d, ok := unhx(m["data"])
+		sy, ok2 := natOf(m, "sync")
+		if !ok || !ok2 || s.wal == nil {
+			return "bad-op"
+		}
+		tm, err := unmarshal(d)
+		if err != nil {
+			return "bad-data"
+		}
+		g := s.wal.Group()
+		before := g.MaxIndex()
+		tw := &tickWriter{g: g}
+		if err := consensus.NewWALEncoder(tw).Encode(tm); err != nil {
+			if strings.Contains(err.Error(), "msg is too big") {
+				return "err-too-big"
+			}
+			return "err:" + err.Error()
+		}
+		rot := g.MaxIndex() != before
+		if rot {
+			s.synced = 0
+		}
+		if sy != 0 {
+			if r := s.sync(); r != "ok" {
+				return r
+			}
+		}
+		return fmt.Sprintf("ok w=%d rotated=%v %s", tw.writes, rot, s.dump())
 	case "sync":
 		if !bare || s.wal == nil {
 			return "bad-op"
@@ -995,6 +1024,21 @@ func (s *sess) race(datas [][]byte) string {
 		}
 	}
 	return "race ok " + s.dump()
+}
+
+// tickWriter stands between the encoder and the group: after every Write call the encoder issues
+// it lets the group's size-limit check run, as the background ticker may at any moment. One
+// record = one Write, so on the code as it is the check runs only between records.
+type tickWriter struct {
+	g      *auto.Group
+	writes int
+}
+
+func (t *tickWriter) Write(p []byte) (int, error) {
+	n, err := t.g.Write(p)
+	t.writes++
+	t.g.VerifCheckHeadSizeLimit()
+	return n, err
 }
 
 func (s *sess) indices() []int {
